@@ -1,6 +1,7 @@
 import Pfst.JsonUtil
 import Pfst.Quote
 import Pfst.Indentable
+import Pfst.PutBack
 /-! Driver package for C08: strings travel as lists of code points (no JSON escaping questions); the per-character
 classification is a table `[[codepoint, isprintable, repr_raw, isspace], ...]` computed by the harness with CPython. -/
 namespace Pfst.Drv.C08
@@ -100,6 +101,15 @@ def dispatch (f : String) (j : Json) : Option Json :=
                            ("indent", Json.arr ((indentBlock ind m strs lo lines).map ofChars).toArray),
                            ("dedent", Json.arr ((dedentBlock ind m strs lo lines).map ofChars).toArray)]
       | none => return Json.mkObj [("lns", Json.arr lns.toArray)]
+  | "C08.elif" => some <| Id.run do
+      -- batch of [hasPre, hasPost, isOrelse, tgtIsIf, optElif, oldIsElif, putLen, putFirstIsIf] → 0 keep / 1 toElif / 2 toElse
+      let some a := getArr j "items" | return Json.mkObj [("err", "bad items")]
+      let some items := a.toList.mapM asNats | return Json.mkObj [("err", "bad item")]
+      return Json.arr (items.map (fun it => match it with
+        | [a, b, c, d, e, f, n, g] =>
+          match Pfst.PutBack.elifDecision ⟨a != 0, b != 0, c != 0, d != 0, e != 0, f != 0, n, g != 0⟩ with
+          | .keep => ofNat 0 | .toElif => ofNat 1 | .toElse => ofNat 2
+        | _ => Json.null)).toArray
   | "C08.comment" => some <| Id.run do
       -- batch of [tail, comment|null, full] → {get, put|del}
       let some k := (get j "cls").bind parseCls | return Json.mkObj [("err", "bad cls")]
